@@ -54,6 +54,8 @@ def functions_for(R, pid):
         if spec.trusted:
             continue
         tags = set(spec.raise_props) | set(spec.frame_props) | set(getattr(spec, 'report_props', ()))
+        for _n, _f, _p in getattr(spec, 'report_clauses', []):
+            tags |= set(_p)
         for c in spec.post:
             tags |= set(c.props)
         if pid in tags:
